@@ -69,7 +69,124 @@ pub fn run(ctx: &Ctx) -> Outcome {
         scenario(ctx, &mut out, &mut rng, idx);
     }
     clock::unfreeze_wall();
+    let histories: u64 = if ctx.thorough { 14 * 60_000 } else { 30_000 };
+    for idx in ctx.my_cases(histories) {
+        let mut rng = ctx.rng("C09-pins", idx);
+        pin_registry_history(ctx, &mut out, &mut rng, idx);
+    }
     out
+}
+
+/// Lane PIN-MODEL: the registry the collector and the queries meet in, against reference counts.
+/// Random histories of up to four overlapping "queries" (pin / try_pin of overlapping path lists, guard
+/// drop) and a collector (begin_delete / end_delete); after every step `is_pinned(p)` must say exactly
+/// whether a live guard covers p - a pin that vanishes while its guard is alive is a file deleted under
+/// a running query one GC pass later - and a delete claim must be refused while a guard covers the path.
+fn pin_registry_history(ctx: &Ctx, out: &mut Outcome, rng: &mut Rng, idx: u64) {
+    let reg = ChunkPinRegistry::new();
+    let paths: Vec<String> = (0..5).map(|i| format!("t/data/p{}.parquet", i)).collect();
+    let mut counts: BTreeMap<String, u64> = BTreeMap::new();
+    let mut deleting: BTreeSet<String> = BTreeSet::new();
+    // (the guard type is not exported by name)
+    let mut guards: Vec<(Vec<String>, Box<dyn std::any::Any>)> = vec![];
+    let mut trace: Vec<String> = vec![];
+    let mut refused_with_overlap = false;
+    let n = 4 + rng.usize(12);
+    for _ in 0..n {
+        match rng.below(10) {
+            0..=3 => {
+                // a query pins its (ordered) chunk list
+                let k = 1 + rng.usize(4);
+                let mut list: Vec<String> = (0..k).map(|_| paths[rng.usize(paths.len())].clone()).collect();
+                list.sort();
+                list.dedup();
+                if rng.chance(1, 3) {
+                    list.reverse();
+                }
+                if rng.chance(1, 5) {
+                    trace.push(format!("pin{:?}", list));
+                    let g = reg.pin(list.clone());
+                    for p in &list {
+                        *counts.entry(p.clone()).or_insert(0) += 1;
+                    }
+                    guards.push((list, Box::new(g)));
+                } else {
+                    let must_refuse = list.iter().any(|p| deleting.contains(p));
+                    match reg.try_pin(list.clone()) {
+                        Ok(g) => {
+                            trace.push(format!("try_pin{:?}=ok", list));
+                            if must_refuse {
+                                out.violation("C09/pin-registry/pinned-a-path-whose-delete-is-in-flight", &format!("{:?}", trace), json!({"lane": "pin-model", "history": idx, "seed": ctx.seed}));
+                                return;
+                            }
+                            for p in &list {
+                                *counts.entry(p.clone()).or_insert(0) += 1;
+                            }
+                            guards.push((list, Box::new(g)));
+                        }
+                        Err(_) => {
+                            trace.push(format!("try_pin{:?}=refused", list));
+                            if list.iter().any(|p| counts.get(p).copied().unwrap_or(0) > 0) {
+                                refused_with_overlap = true;
+                            }
+                            if !must_refuse {
+                                out.violation("C09/pin-registry/pin-refused-without-a-delete-in-flight", &format!("{:?}", trace), json!({"lane": "pin-model", "history": idx, "seed": ctx.seed}));
+                                return;
+                            }
+                        }
+                    }
+                }
+            }
+            4 | 5 if !guards.is_empty() => {
+                let i = rng.usize(guards.len());
+                let (list, g) = guards.swap_remove(i);
+                trace.push(format!("drop{:?}", list));
+                drop(g);
+                for p in &list {
+                    if let Some(c) = counts.get_mut(p) {
+                        *c = c.saturating_sub(1);
+                    }
+                }
+            }
+            6 | 7 => {
+                let p = paths[rng.usize(paths.len())].clone();
+                let pinned = counts.get(&p).copied().unwrap_or(0) > 0;
+                let ok = reg.begin_delete(&p);
+                trace.push(format!("begin_delete({})={}", p, ok));
+                if ok && pinned {
+                    out.violation("C09/pin-registry/delete-claimed-while-pinned", &format!("{:?}", trace), json!({"lane": "pin-model", "history": idx, "seed": ctx.seed}));
+                    return;
+                }
+                if ok {
+                    deleting.insert(p);
+                }
+            }
+            _ => {
+                if let Some(p) = deleting.iter().next().cloned() {
+                    reg.end_delete(&p);
+                    deleting.remove(&p);
+                    trace.push(format!("end_delete({})", p));
+                }
+            }
+        }
+        out.eval();
+        for p in &paths {
+            let model = counts.get(p).copied().unwrap_or(0) > 0;
+            if reg.is_pinned(p) != model {
+                out.violation(
+                    if model { "C09/pin-registry/pin-lost-while-its-guard-is-alive" } else { "C09/pin-registry/path-pinned-without-a-guard" },
+                    &format!("after {:?}: is_pinned({}) = {}, live guards covering it: {}", trace, p, !model, counts.get(p).copied().unwrap_or(0)),
+                    json!({"lane": "pin-model", "history": idx, "seed": ctx.seed, "trace": trace}),
+                );
+                return;
+            }
+        }
+    }
+    out.count("pin_model.histories", 1);
+    if refused_with_overlap {
+        out.count("pin_model.refusals_of_a_list_overlapping_a_live_pin", 1);
+        out.nontrivial(hash_str(&format!("pins|{:?}", trace)));
+    }
 }
 
 struct Res {
@@ -94,7 +211,8 @@ fn scenario(ctx: &Ctx, out: &mut Outcome, rng: &mut Rng, idx: u64) {
     let grace_s = *rng.pick(&[0u64, 1, 300, 300]);
     let nchunks = 4 + rng.usize(7);
     let ncycles = 2 + rng.usize(3);
-    let nqueries = rng.usize(3);
+    let nqueries = rng.usize(4);
+    let mut window_rng = rng.fork(7);
     let restart = rng.chance(1, 2);
     let admin_delete = rng.chance(1, 2);
     let jump_permille = *rng.pick(&[10u64, 40, 100]);
@@ -121,7 +239,12 @@ fn scenario(ctx: &Ctx, out: &mut Outcome, rng: &mut Rng, idx: u64) {
         };
         plans.push((label.to_string(), ts));
     }
-    let strategy = if rng.chance(2, 3) { Strategy::Uniform } else { Strategy::Pct { change_points: (0..3).map(|_| rng.below(150)).collect() } };
+    let strategy = match rng.below(6) {
+        0..=2 => Strategy::Uniform,
+        3 => Strategy::Pct { change_points: (0..3).map(|_| rng.below(150)).collect() },
+        // one query runs for a long time (its pins outlive several GC passes and other queries)
+        _ => Strategy::Slow { actor: "q0".into() },
+    };
     let sched_rng = rng.fork(1);
     let mut clock_rng = rng.fork(2);
     let cfg = CompactorConfig {
@@ -240,8 +363,18 @@ fn scenario(ctx: &Ctx, out: &mut Outcome, rng: &mut Rng, idx: u64) {
             let store = ctl.store(&name);
             let reg = registry.clone();
             let qr = query_results.clone();
-            let lo = cutoff0 - 4 * DAY;
-            let hi = now0 + DAY;
+            // different windows per query: the pinned sets of overlapping queries then differ and overlap partly
+            let windows: Vec<(i64, i64)> = (0..3)
+                .map(|_| match window_rng.below(5) {
+                    0 | 1 => (cutoff0 - 4 * DAY, now0 + DAY),
+                    2 => (cutoff0 - 4 * DAY, now0 - 2 * H),
+                    3 => (now0 - 2 * H, now0 + DAY),
+                    _ => {
+                        let a = now0 - window_rng.range(0, 3 * H);
+                        (a - H / 2, a)
+                    }
+                })
+                .collect();
             qhs.push(sim::spawn_actor(&name, async move {
                 let node = match QueryNode::new(query_config(), store, meta, storage_config()).await {
                     Ok(n) => n.with_pin_registry(reg),
@@ -250,7 +383,7 @@ fn scenario(ctx: &Ctx, out: &mut Outcome, rng: &mut Rng, idx: u64) {
                         return;
                     }
                 };
-                for i in 0..2 {
+                for (i, (lo, hi)) in windows.into_iter().enumerate() {
                     let sql = format!("SELECT value_i64 FROM metrics WHERE timestamp >= {} AND timestamp <= {}", lo, hi);
                     let r = node.query(&sql).await;
                     qr.lock().push(match r {
